@@ -65,6 +65,9 @@ CONC_PROGRAMS = [
     [[["import", "g2", 2], ["add_node", "g2", "t0a"]], [["add_node", "g0", "t1a"], ["import", "g0", 1]]],
     [[["clone", "g0", "g2"], ["add_node", "g2", "t0a"]], [["delete", "g0"], ["add_node", "g1", "t1a"]]],
     [[["add_node", "g1", "t0a"], ["delete_imp", "g1"]], [["import", "g1", 0], ["extract", "g1"]]],
+    # two writers / a writer and a reader meeting on a graph id the store has not seen yet (first touch)
+    [[["add_node", "g2", "t0-g2-1"]], [["add_node", "g2", "t1-g2-2"]]],
+    [[["add_node", "g2", "t0-g2-1"]], [["extract", "g2"], ["add_node", "g2", "t1-g2-2"]]],
 ]
 
 
